@@ -187,6 +187,7 @@ func checkC08(c *CheckCtx) error {
 	scs := genSkipRun(g, c.pick(160, 3000), []string{"default", "clean", "update", "ci"}, 0.0, 1.0)
 	scs = append(scs, genSkipRun(g, c.pick(120, 2000), []string{"default", "clean", "update"}, 0.35, 0.0)...)
 	scs = append(scs, genSkipRun(g, c.pick(80, 1500), []string{"default", "clean"}, 0.25, 0.7)...)
+	scs = append(scs, otherFilesRun()...)
 	for _, s := range scs {
 		c.nontrivial(s.Note)
 	}
@@ -194,4 +195,34 @@ func checkC08(c *CheckCtx) error {
 	c.sample(map[string]any{"source": "generated skip/-run scenario", "note": scs[0].Note})
 	c.sample(map[string]any{"source": "generated skip/-run scenario", "note": scs[len(scs)-1].Note})
 	return c.runSeq(scs)
+}
+
+// otherFilesRun: snapshot files that belong to OTHER test files of the package (other_test.go, and
+// pay.v2_test.go whose name has a dot): with a -run filter that selects none of the tests those files
+// declare, nothing in this run addressed them and Clean has to leave them alone.
+func otherFilesRun() []*Scenario {
+	var out []*Scenario
+	n := 0
+	for _, via := range []string{"dotfile", "otherfile"} {
+		for _, mode := range []string{"clean", "default"} {
+			for _, run := range []string{"^TestB$", "TestB", "^TestB$/^x$"} {
+				n++
+				sc := &Scenario{ID: fmt.Sprintf("of%d", n), Configs: stdConfigs(), DefaultLoc: true, Program: append([]string{}, topTests...)}
+				tests := func() map[string]*TDef {
+					return map[string]*TDef{
+						"TestA": {Execs: [][]*Step{{{Op: "match", API: "snapshot", Cfg: "", Val: strVal("through the other file"), Via: via}, {Op: "match", API: "snapshot", Cfg: "", Val: strVal("direct")}}}},
+						"TestB": {Execs: [][]*Step{{{Op: "match", API: "snapshot", Cfg: "", Val: strVal("b")}, {Op: "sub", Name: "x", Steps: []*Step{{Op: "match", API: "snapshot", Cfg: "", Val: strVal("bx")}}}}}},
+					}
+				}
+				sc.Procs = append(sc.Procs, &Proc{Spec: ProcSpec{}, Real: true, State: "call", Tests: tests()})
+				spec := cleanModeSpec(mode)
+				spec.Run = run
+				sc.Procs = append(sc.Procs, &Proc{Spec: spec, Real: true, State: "call", Clean: &CleanDef{}, Tests: tests()})
+				sc.Procs = append(sc.Procs, &Proc{Spec: ProcSpec{CI: "CI"}, Real: true, State: "call", Tests: tests()})
+				sc.Note = fmt.Sprintf("snapshot file of another test file (%s), -run %q, mode %s", via, run, mode)
+				out = append(out, sc)
+			}
+		}
+	}
+	return out
 }
